@@ -436,6 +436,11 @@ func wantAt(tree any, pos string) (want string, wantErr bool, ok bool) {
 	sv, hasS := strView(tree)
 	switch pos {
 	case "map:k", "map:s", "map:l", "map:ls", "map:m", "map:ms", "get:k", "get:m::x", "any", "held:any", "[]any", "map[string]any", "typed:int", "typed:float", "typed:bool", "typed:map", "typed:list":
+		if pos == "held:any" && !hasS {
+			// the held struct also has string-typed fields fed by the same value: a value without an
+			// original text (a provider map/list that needed further expansion) legitimately fails there
+			return "", false, false
+		}
 		return av, false, true
 	case "string", "[]string", "map[string]string", "held:string", "held:[]string", "held:map[string]string", "squash:string",
 		"ptr-struct:string", "named:string", "unmarshaler:string", "sub:string":
